@@ -496,7 +496,7 @@ def check_signing_input(chk, prog, env, model):
 def check_exact_compare(chk, prog, model, tier='quick', rulename='C01.exact-compare'):
     """the repo's own string compare, which the path rules treat as an exact-compare primitive, is evaluated (its loop unrolled on
     concrete operands) on a partition of operand pairs: equal; one a proper prefix of the other with the length difference at each
-    integer-width boundary (1, 255, 256, 257, 512, thorough: 65536); same length differing in the first / a middle / the last byte"""
+    integer-width boundary (1, 255, 256, 257, 512, thorough: 65536); same length differing in the first / a middle / the last byte (another letter, letter case only, top bit only)"""
     n = 0
     bad = 0
     for fname in EXACT_COMPARE:
@@ -521,8 +521,11 @@ def check_exact_compare(chk, prog, model, tier='quick', rulename='C01.exact-comp
             for pos in sorted(set((0, L // 2, L - 1))):
                 b = a[:pos] + 'j' + a[pos + 1:]
                 pairs.append((a, b, False))
-                c = a[:pos] + chr(ord('k') + 128 - 256 if False else 0xeb) + a[pos + 1:]      # differs only in the top bit
+                c = a[:pos] + chr(0xeb) + a[pos + 1:]      # differs only in the top bit
                 pairs.append((a, c, False))
+                d_ = a[:pos] + 'K' + a[pos + 1:]           # differs only in letter case (bit 5)
+                pairs.append((a, d_, False))
+                pairs.append((d_, a, False))
         for x, y, eq in pairs:
             n += 1
             it = Interp(prog, unit, model=model, budget=8000000)
